@@ -8,6 +8,7 @@ from .prng import digest
 from .world import ChunkSchedule, World, run_tool
 
 IN_PATH = "/simfs/in.img"
+VCWD_OF_PROCESS = None     # set by the C12 worker: the working directory its process was given
 OUT_PATH = "/simfs/out.img"
 OUT_PNG = "/simfs/out.png"
 
@@ -125,7 +126,7 @@ def simulate(tool, opts, data: bytes, env: Env, damaged=(), boundaries=(), budge
     sout = ChunkSchedule(env.out_chunk, env.out_seed)
     use_stdin = env.in_kind != "path"
     w = World(stdin_data=data if use_stdin else None, stdin_sched=sin, stdout_sched=sout,
-              stdin_damaged=damaged if use_stdin else ())
+              stdin_damaged=damaged if use_stdin else (), vcwd=VCWD_OF_PROCESS)
     with w:
         if not use_stdin:
             w.fs.put(IN_PATH, data, damaged)
